@@ -253,6 +253,9 @@ def generic(args, prop, worker, cfgs, confirm, level="model_checking", extra_tas
         for w in r["witnesses"]:
             if nw >= (40 if tier == "thorough" else 12):
                 break
+            if w["args"] is None:
+                not_replayable += 1
+                continue
             nw += 1
             ok, msg, resp = validate_witness(rp, w, fcost)
             if ok:
@@ -272,6 +275,11 @@ def generic(args, prop, worker, cfgs, confirm, level="model_checking", extra_tas
             else:
                 faults.append(f"{r['name']}[{tag}]: model/VM divergence on {w['args']}: {msg}")
         for c in r["candidates"]:
+            if c.get("args") is None:
+                # pointer-typed parameters cannot be passed through the runner API: the solver
+                # model cannot be replayed, so it is reported as undecided, never as a violation
+                r["undecided"].append(f"{c.get('query')}:model-not-replayable(pointer argument)")
+                continue
             okc, payload = confirm(rp, c, fcost, r)
             payload.update({"property": prop, "source": src, "config": cfg, "candidate": c})
             if okc:
@@ -582,6 +590,8 @@ def run_c05(args):
             continue
         src = meta[(r["dump"], r["name"])]
         for w in r["witnesses"][:(30 if tier == "thorough" else 10)]:
+            if w["args"] is None:
+                continue
             cfg = dict(cfg_of[w["variant"]], allow_warnings=True)
             ok, msg, resp = validate_witness(reps.get(src, cfg), w, None)
             if ok:
@@ -590,6 +600,9 @@ def run_c05(args):
                 faults.append(f"{r['name']}[{w['variant']}]: model/VM divergence on {w['args']}: "
                               f"{msg}")
         for c in r["candidates"]:
+            if c.get("args") is None:
+                r["undecided"].append(f"{c.get('query')}:model-not-replayable(pointer argument)")
+                continue
             rb = reps.get(src, dict(base_cfg, allow_warnings=True))
             rv = reps.get(src, dict(cfg_of[c["variant"]], allow_warnings=True))
             runs = {"base_honest": rb.run(c["func"], c["args"]),
